@@ -29,6 +29,9 @@ struct verif_in {
 	block_off_t rw_pos;
 	data_off_t valid_size;
 	int chunk[8], io_fail_at, advise_rw_ret;
+	/* handle_utime / handle_create */
+	int64_t u_sec; int u_nsec; int u_open, u_ret;
+	int c_open1, c_errno1, c_open2, c_errno2, c_rename, c_open3, c_mk, c_already;
 	/* state_check region */
 	int fix, auditonly, level, skip_access[LEV_MAX], excluded[LEV_MAX], popen_ret[LEV_MAX], pcreate_ret[LEV_MAX], chsize_ret, process_ret;
 	block_off_t blockstart, blockmax, blockcount;
@@ -37,11 +40,22 @@ VERIF_DECLARE_IN
 
 static unsigned g_open_calls;
 static int g_bad_flags, g_writable_ok;
+static int g_create_mode;          /* handle_create unit: a different open() model */
+static unsigned g_copen; static int g_cflags[4];
 
 static int v_open(const char *path, int flags, ...)
 {
 	int r;
 	(void)path;
+	if (g_create_mode) {
+		int k = g_copen < 3 ? (int)g_copen : 3, ret, err;
+		g_cflags[k] = flags;
+		++g_copen;
+		ret = k == 0 ? IN.c_open1 : k == 1 ? IN.c_open2 : IN.c_open3;
+		err = k == 0 ? IN.c_errno1 : k == 1 ? IN.c_errno2 : EACCES;
+		if (ret) { errno = err; return -1; }
+		return 5;
+	}
 	if ((flags & O_ACCMODE) != O_RDONLY || (flags & (O_CREAT | O_TRUNC | O_APPEND)) != 0)
 		g_bad_flags = 1;
 	if (!g_writable_ok) {
@@ -110,6 +124,16 @@ static void v_bw_limit(struct snapraid_bw *bw, unsigned bytes) { (void)bw; (void
 static int v_advise_rw(struct advise_struct *advise, int f, data_off_t offset, data_off_t size) { (void)advise; (void)f; (void)offset; (void)size; return IN.advise_rw_ret ? -1 : 0; }
 static unsigned v_file_block_size(struct snapraid_file *file, block_off_t file_pos, unsigned block_size) { (void)file; (void)file_pos; (void)block_size; return IN.rw_size; }
 
+static unsigned g_fmtime_calls;
+static int64_t g_fm_sec; static int g_fm_nsec;
+static int v_fmtime(int fd, int64_t sec, int nsec) { (void)fd; ++g_fmtime_calls; g_fm_sec = sec; g_fm_nsec = nsec; return IN.u_ret ? -1 : 0; }
+static unsigned g_mkanc, g_rename2;
+static int v_mkancestor(const char *path) { (void)path; ++g_mkanc; return IN.c_mk ? -1 : 0; }
+static int v_rename(const char *a, const char *b) { (void)a; (void)b; ++g_rename2; return IN.c_rename ? -1 : 0; }
+
+#define fmtime v_fmtime
+#define mkancestor v_mkancestor
+#define rename v_rename
 #define pread v_pread
 #define pwrite v_pwrite
 #define bw_limit v_bw_limit
@@ -126,6 +150,9 @@ static unsigned v_file_block_size(struct snapraid_file *file, block_off_t file_p
 #include "region_advise_flags.c"
 #include "cmdline/handle.c"
 #include "cmdline/parity.c"
+#undef fmtime
+#undef mkancestor
+#undef rename
 #undef pread
 #undef pwrite
 #undef bw_limit
@@ -364,6 +391,60 @@ void h_handle_write(void)
 	if (r == 0) {
 		VERIF_ASSERT(IN.io_fail_at != 0, "a short write is an error");
 		VERIF_ASSERT(H.valid_size == (IN.valid_size > (data_off_t)IN.rw_pos * 8 + IN.rw_size ? IN.valid_size : (data_off_t)IN.rw_pos * 8 + IN.rw_size), "the valid size follows the highest byte written");
+	}
+	VERIF_CANARY();
+}
+
+
+/* ---------------------------------------------------------------- handle_utime / handle_create (REAL) */
+void h_handle_utime(void)
+{
+	static struct snapraid_handle H;
+	static struct snapraid_file FL;
+	int r;
+	VERIF_INPUTS();
+	FL.sub = "f"; FL.mtime_sec = IN.u_sec; FL.mtime_nsec = IN.u_nsec;
+	H.file = &FL; H.f = IN.u_open ? 5 : -1;
+	g_fmtime_calls = 0;
+	r = handle_utime(&H);
+	if (!IN.u_open)
+		VERIF_ASSERT(r == 0 && g_fmtime_calls == 0, "a handle that is not open sets no time");
+	else
+		VERIF_ASSERT(g_fmtime_calls == 1 && g_fm_sec == IN.u_sec && g_fm_nsec == IN.u_nsec && r == (IN.u_ret ? -1 : 0),
+			"the time restored is the recorded one: seconds AND nanoseconds");
+	VERIF_CANARY();
+}
+
+void h_handle_create(void)
+{
+	static struct snapraid_handle H;
+	static struct snapraid_disk DK2;
+	static struct snapraid_file FL, OTHERF;
+	int r, k;
+	VERIF_INPUTS();
+	FL.sub = "f";
+	H.disk = &DK2;
+	H.file = IN.c_already ? &FL : &OTHERF;
+	H.f = IN.c_already ? 7 : -1;
+	H.created = 0;
+	g_create_mode = 1; g_copen = 0; g_mkanc = g_rename2 = 0; g_fstat_calls = 0;
+	for (k = 0; k < 4; ++k) g_cflags[k] = 0;
+	r = handle_create(&H, &FL, IN.mode);
+	g_create_mode = 0;
+	if (IN.c_already) {
+		VERIF_ASSERT(r == 0 && g_copen == 0, "an already open file is reused");
+	} else if (IN.c_mk) {
+		VERIF_ASSERT(r == -1 && g_copen == 0, "without its parent directories the file is not created");
+	} else {
+		VERIF_ASSERT(g_mkanc == 1 && g_copen >= 1 && (g_cflags[0] & O_ACCMODE) == O_RDWR && !(g_cflags[0] & (O_CREAT | O_TRUNC)), "an existing file is first opened read-write, never truncated");
+		for (k = 0; k < 4; ++k)
+			VERIF_ASSERT(!(g_cflags[k] & O_TRUNC), "no open of fix truncates a data file");
+		if (r == 0 && !IN.c_open1)
+			VERIF_ASSERT(H.created == 0 && g_copen == 1, "a file that could be opened existed: it is not marked as created by this run");
+		if (r == 0 && !H.created)
+			VERIF_ASSERT(!(g_cflags[g_copen - 1] & O_CREAT), "a file opened without creating it is not marked as created");
+		if (H.created)
+			VERIF_ASSERT((g_cflags[g_copen - 1] & O_CREAT) && g_rename2 == 1, "creation happens only after looking for a .unrecoverable copy to take back");
 	}
 	VERIF_CANARY();
 }
